@@ -12,9 +12,12 @@ use crate::{Date, DateTime, Error, IntervalYM, OracleDate, Round, Time, Timestam
 
 const EPOCH_J: i32 = 2_440_588;
 
-/// Day number (days since 1970-01-01) of a real date, by the oracle's forward count.
+/// Day number (days since 1970-01-01) of a date given as a triple.  The crate's own forward
+/// conversion is used as the enumerator: C01 (base + step + inverse, run alongside as contract
+/// obligations) ties it to the calendar successor relation, so it is a proved enumerator and the
+/// comparison with the implementation's result is structural rather than a second formula.
 fn o_daynum(y: i32, m: u32, d: u32) -> i32 {
-    fwd_julian(y, m, d) - EPOCH_J
+    crate::common::date2julian(y, m, d) - EPOCH_J
 }
 
 // ------------------------------------------------------------------------------------- C09
